@@ -452,7 +452,9 @@ class FlatLinearOperator(ScipyLinearOperator):
                 size = sl.stop - sl.start
                 self.shape = (size, size)
             else:
-                self._mask = np.all(self.leg.to_qflat() == value[np.newaxis, :], axis=1)
+                # `value` is the qtotal of the vector (as in `flat_to_npc` and the compact case): leg charge * qconj
+                charge = self.leg.chinfo.make_valid(self.leg.qconj * value)
+                self._mask = np.all(self.leg.to_qflat() == charge[np.newaxis, :], axis=1)
                 self.shape = tuple([np.sum(self._mask)] * 2)
         else:
             if self.compact_flat:
